@@ -4,7 +4,8 @@
 //!
 //!   host new ip=0 bd=1 un=1 ud=1 um=1 rf=1 rs=1 to=<ms|-> cd=<ms> rq=<0|1> q=<n> now=<ms>
 //!   host ev <node> nbirth ts= bd= id= ans=<ok|inv|unk> now=
-//!   host ev <node> ndeath bd= now=
+//!   host ev <node> ndeath bd= [pts=<ms|->] now=     pts: the timestamp the NDEATH PAYLOAD carries (default: now;
+//!                                                   `-` = none, as srad-eon's own will); the host must not care
 //!   host ev <node> ndata seq= ts= id= ans= now=
 //!   host ev <node> dbirth dev= seq= ts= id= ans= now=
 //!   host ev <node> ddeath dev= seq= ts= id= now=
@@ -628,8 +629,15 @@ impl Sess {
                         self.node_event(node, MessageKind::Birth, payload(Some(t), Some(0), ms))
                     }
                     "ndeath" => {
-                        let ms = vec![m_long("bdSeq", num(w, "bd"), now, false)];
-                        self.node_event(node, MessageKind::Death, payload(Some(now), None, ms))
+                        // a will is built when the connection is opened: whatever timestamp it carries is
+                        // older than the session's NBIRTH; staleness is decided by the arrival time
+                        let pts = match kv(w, "pts") {
+                            None => Some(now),
+                            Some("-") => None,
+                            Some(x) => Some(x.parse::<u64>().unwrap()),
+                        };
+                        let ms = vec![m_long("bdSeq", num(w, "bd"), pts.unwrap_or(now), false)];
+                        self.node_event(node, MessageKind::Death, payload(pts, None, ms))
                     }
                     "ndata" => {
                         let t = ts.unwrap();
@@ -890,7 +898,7 @@ fn clean_case(out: &mut Out, rng: &mut Rng, long: bool) {
     for (pos, it) in plan.iter().enumerate() {
         let now = t0 + pos as u64;
         match it {
-            Item::Death { node, bd } => bodies.push((*node, format!("ev n{} ndeath bd={}", node + 1, bd), 0)),
+            Item::Death { node, bd } => bodies.push((*node, format!("ev n{} ndeath bd={}{}", node + 1, bd, will_ts(rng)), 0)),
             Item::Birth { node, bd, n, ndev } => {
                 let (birth, msgs) = session(rng, *bd, now, *n, *ndev, &mut next_id);
                 let d = rng.range(0, 30);
@@ -1040,7 +1048,7 @@ fn faulty_case(out: &mut Out, rng: &mut Rng) {
             match rng.below(60) {
                 0 => {
                     let b = if rng.chance(1, 2) { bd[k] } else { (bd[k] + rng.range(1, 255)) % 256 };
-                    c.op(&format!("ev {} ndeath bd={}", name, b));
+                    c.op(&format!("ev {} ndeath bd={}{}", name, b, will_ts(rng)));
                     c.out.count(if b == bd[k] { "fault:ndeath-match" } else { "fault:ndeath-mismatch" });
                 }
                 1 => {
@@ -1088,7 +1096,7 @@ fn faulty_case(out: &mut Out, rng: &mut Rng) {
             }
         }
         if rng.chance(1, 2) {
-            c.op(&format!("ev {} ndeath bd={}", name, bd[k]));
+            c.op(&format!("ev {} ndeath bd={}{}", name, bd[k], will_ts(rng)));
             bd[k] = (bd[k] + 1) % 256;
         }
         if let (Some(t), true) = (to, rng.chance(1, 3)) {
@@ -1128,7 +1136,9 @@ fn soup_case(out: &mut Out, syms: &[usize], cfg: &str, stat: &str) {
                 c.op(&format!("ev n1 nbirth ts={} bd={} id={} ans=ok", last_birth_ts, bd, id));
             }
             "X" => {
-                c.op(&format!("ev n1 ndeath bd={}", bd));
+                // the will of this session: stamped (if at all) before the session's NBIRTH
+                let pts = ["", " pts=-", " pts=1", ""][(id % 4) as usize];
+                c.op(&format!("ev n1 ndeath bd={}{}", bd, pts));
             }
             "Xm" => {
                 c.op(&format!("ev n1 ndeath bd={}", (bd + 1) % 256));
@@ -1186,6 +1196,12 @@ fn trigger_scenarios(out: &mut Out) {
     trigger_scenarios_with(out, "ip=1 bd=1 un=1 ud=1 um=1 rf=1 rs=1 to=100 cd=0 rq=1 q=1024 tf=1");
 }
 
+/// the timestamp an NDEATH payload carries: the arrival time (default), none (srad-eon's will), or the
+/// time the will was registered, i.e. before the session's NBIRTH (other Sparkplug implementations)
+fn will_ts(rng: &mut Rng) -> &'static str {
+    *rng.pick(&["", "", " pts=-", " pts=1", " pts=999999", " pts=18446744073709551615"])
+}
+
 fn trigger_scenarios_with(out: &mut Out, cfg: &str) {
     let t0 = 1_000_000u64;
     let birth = format!("ev n1 nbirth ts={} bd=3 id=1 ans=ok", t0);
@@ -1195,6 +1211,11 @@ fn trigger_scenarios_with(out: &mut Out, cfg: &str) {
         ("unknown-node-device-data", vec![], format!("ev n1 ddata dev=1 seq=1 ts={} id=5 ans=ok", t0)),
         ("unknown-device-data", vec![birth.clone()], format!("ev n1 ddata dev=4 seq=1 ts={} id=5 ans=ok", t0 + 5)),
         ("data-while-stale", vec![birth.clone(), "ev n1 ndeath bd=3".into()], format!("ev n1 ndata seq=1 ts={} id=5 ans=ok", t0 + 50)),
+        ("data-after-will-stamped-before-birth", vec![birth.clone(), "ev n1 ndeath bd=3 pts=1".into()], format!("ev n1 ndata seq=1 ts={} id=5 ans=ok", t0 + 50)),
+        ("data-after-will-without-timestamp", vec![birth.clone(), "ev n1 ndeath bd=3 pts=-".into()], format!("ev n1 ndata seq=1 ts={} id=5 ans=ok", t0 + 50)),
+        // a replayed (not newer) NBIRTH while a gap is open changes nothing: the gap still times out
+        ("gap-timeout-after-replayed-birth", vec![birth.clone(), format!("ev n1 ndata seq=2 ts={} id=4 ans=ok", t0 + 3), birth.clone()], "adv 101".into()),
+        ("gap-timeout-after-older-birth", vec![birth.clone(), format!("ev n1 ndata seq=2 ts={} id=4 ans=ok", t0 + 3), format!("ev n1 nbirth ts={} bd=2 id=9 ans=ok", t0 - 5)], "adv 101".into()),
         ("device-data-while-device-stale", vec![birth.clone(), db.clone(), format!("ev n1 ddeath dev=1 seq=2 ts={} id=3", t0 + 2)], format!("ev n1 ddata dev=1 seq=3 ts={} id=5 ans=ok", t0 + 50)),
         ("duplicate-seq", vec![birth.clone(), format!("ev n1 ndata seq=3 ts={} id=4 ans=ok", t0 + 3)], format!("ev n1 ndata seq=3 ts={} id=5 ans=ok", t0 + 4)),
         ("gap-timeout", vec![birth.clone(), format!("ev n1 ndata seq=2 ts={} id=4 ans=ok", t0 + 3)], "adv 101".into()),
